@@ -166,3 +166,65 @@ Definition star_placer (mid : nat) (c : circ) : option (list nat) :=
   | Some None => Some (cwires c)
   | Some (Some nm) => Some (swap_entries (cwires c) mid nm)
   end.
+
+(* ---- what every placer does with the layout it computed:
+   circuit.wire_names = sorted(layout, key=layout.get), i.e. position p gets the node whose layout
+   value is p.  [keys] = list(connectivity.nodes), [m] = layout values in the order of keys. *)
+Definition wires_of_layout (keys m : list nat) : list nat :=
+  map (fun p => nth (index_of p m) keys 0) (seq 0 (length keys)).
+
+(* ---- placer.Random: greedy choice among sampled layouts (the samples are an oracle stream) *)
+Definition relabel_edges (keys m : list nat) (es : list (nat * nat)) : list (nat * nat) :=
+  map (fun e => (at_ m (index_of (fst e) keys), at_ m (index_of (snd e) keys))) es.
+(* Random._cost: number of gates after the first one that is not on an edge *)
+Fixpoint random_cost (G : list (nat * nat)) (pairs : list (nat * nat)) : nat :=
+  match pairs with
+  | [] => 0
+  | p :: rest => if has_edge G (fst p) (snd p) then random_cost G rest else length rest
+  end.
+Fixpoint random_loop (keys : list nat) (es pairs : list (nat * nat)) (best : list nat) (bestc : nat)
+         (samples : list (list nat)) : list nat :=
+  match samples with
+  | [] => best
+  | m :: rest =>
+      let c := random_cost (relabel_edges keys m es) pairs in
+      if c =? 0 then m
+      else if c <? bestc then random_loop keys es pairs m c rest
+      else random_loop keys es pairs best bestc rest
+  end.
+Definition random_placer (d : device) (pairs : list (nat * nat)) (samples : list (list nat)) : list nat :=
+  let keys := dnodes d in
+  let m0 := seq 0 (length keys) in
+  wires_of_layout keys (random_loop keys (dedges d) pairs m0
+                          (random_cost (relabel_edges keys m0 (dedges d)) pairs) samples).
+
+(* ---- placer.Subgraph: the GraphMatcher is an oracle; answers = (is_monomorphic, mapping values
+   in the order of the device nodes) for the successive calls of subgraph_is_monomorphic *)
+Definition norm_pair (p : nat * nat) : nat * nat := if fst p <=? snd p then p else (snd p, fst p).
+Definition pair_eqb (a b : nat * nat) : bool := Nat.eqb (fst a) (fst b) && Nat.eqb (snd a) (snd b).
+Fixpoint dedup_pairs (l : list (nat * nat)) : list (nat * nat) :=
+  match l with
+  | [] => []
+  | p :: l' => if existsb (pair_eqb (norm_pair p)) (map norm_pair l') then dedup_pairs l' else norm_pair p :: dedup_pairs l'
+  end.
+(* state: i = index of the last pair added to circuit_subgraph; result = mapping of the last
+   successful matcher *)
+Fixpoint subgraph_loop (fuel nedges : nat) (pairs : list (nat * nat)) (i : nat) (result : option (list nat))
+         (answers : list (bool * list nat)) : option (list nat) :=
+  match fuel, answers with
+  | S f, (true, m) :: rest =>
+      let i' := S i in
+      if (nedges =? length (dedup_pairs (firstn (S i') pairs))) || (i' =? length pairs - 1)
+      then Some m
+      else subgraph_loop f nedges pairs i' (Some m) rest
+  | _, (false, _) :: _ => result
+  | _, _ => None
+  end.
+Definition subgraph_placer (d : device) (pairs : list (nat * nat)) (answers : list (bool * list nat)) : option (list nat) :=
+  if length pairs <? 2 then None
+  else option_map (wires_of_layout (dnodes d))
+                  (subgraph_loop (length pairs) (length (dedup_pairs (dedges d))) pairs 0 None answers).
+
+(* ---- placer.ReverseTraversal: the layout found by its inner routing is discarded
+   (_routing_step's result is not used by __call__): the wire names stay as they are *)
+Definition reverse_traversal_placer (c : circ) : list nat := cwires c.
